@@ -19,6 +19,7 @@ func H_C08_fileline() {
 	}
 	l := &TextLayout{BaseLayout{FileLineLength: w}}
 	got := l.GetFileLine(&Event{File: f, Line: line}) // real code; a run-time panic is a path outcome
+	vObserve("fileLine", got)
 	full := f + ":" + lineStr
 	if len(full) > w {
 		keep := 0 // max(W-3, 0) without wrap-around for W near the minimum int
@@ -51,6 +52,7 @@ func H_C08_text() {
 	tl := &TextLayout{BaseLayout{FileLineLength: 48}}
 	jout := append([]byte(nil), jl.ToBytes(e)...)
 	tout := append([]byte(nil), tl.ToBytes(e)...)
+	vObserve("text", tout)
 	got, ok := vParseJSONLine(jout)
 	vAssume(ok && got.kind == 'o' && len(got.vals) == len(want.vals)) // C07 decides validity of the JSON line
 	exp := []byte("[INFO][2025-06-01T12:30:45.123][file.go:10] _t_x||")
